@@ -1286,7 +1286,8 @@ def rule_t_mover(ctx):
 
 def rule_t_free(ctx):
     R = RuleResult("T-free", "a removal that hands an old-table element back to the caller frees the old table when that was its last element; the split "
-                   "table's removals that do not (erase, replace_bucket_with) are reached only from retain and replace_entry_with")
+                   "table's removals that do not (erase, replace_bucket_with) are reached only from retain and replace_entry_with; clear and drain drop the "
+                   "old table on every path, at every layer")
     for body, c, role, recv in hb_calls(ctx):
         if c.tname != HBT + "remove" or role != OLD or body.path in movers(ctx):
             continue
@@ -1360,6 +1361,46 @@ def rule_t_free(ctx):
                        "that to the next key-adding call — a removal must go through the split table's `remove`" % (tp, nf, what))
     if nsite < 2:
         R.anchor("non-freeing callers", "expected retain and replace_entry_with as callers of the non-freeing removals, found %d" % nsite)
+    # `clear` and `drain` are two of the three events the property names as releasing an old table that was emptied without being freed: at every
+    # layer (split table, map, set) every path through them drops the old table — also when the collection happens to be empty
+    holders = set(ctx.roles.holders) | {S_}
+    for adt_, a in ctx.facts.adts.items():
+        if a.get("kind") == "Struct" and any(T[f["ty"]].get("adt") in ctx.roles.holders for v in a["variants"] for f in v["fields"]):
+            holders.add(adt_)
+    memo = {}
+
+    def frees(fb, depth=0):
+        if fb.path in memo:
+            return memo[fb.path]
+        memo[fb.path] = False
+        done = set(_left_cleared_blocks(ctx, fb))
+        if depth < 4:
+            for c in ctx.calls(fb):
+                lc = c.local_callee()
+                if lc is not None and lc.kind != "Closure" and not fb.is_cleanup(c.loc.bb) and lc.path != fb.path and lc.name in ("clear", "drain") \
+                        and c.arg_path(0) is not None and c.arg_path(0).strip_refs().root == 1 and frees(lc, depth + 1):
+                    done.add(c.loc.bb)
+        w = _must_pass(fb, [0], done, set()) if done else [0]
+        memo[fb.path] = w is None
+        if w is not None:
+            memo[fb.path + "#w"] = w
+        return memo[fb.path]
+    nclr = 0
+    for fb in ctx.facts.bodies.values():
+        if fb.kind == "Closure" or fb.name not in ("clear", "drain") or "self_ty" not in fb.raw or fb.raw.get("trait"):
+            continue
+        st = T[fb.raw["self_ty"]]
+        if st.get("adt") not in holders:
+            continue
+        nclr += 1
+        ok = frees(fb)
+        R.inst(fn=fb.path, check="drops the old table on every path", verdict="ok" if ok else "VIOLATION")
+        if not ok:
+            w = memo.get(fb.path + "#w", [0])
+            R.viol("%s:keeps-old-table" % fb.path, fb.where(Loc(w[-1], 0)), "%s can return (path %s) without dropping the old table: an old table emptied by retain / "
+                   "replace_entry_with stays allocated although clear and drain are named as the calls that release it" % (fb.path, " -> ".join("bb%d" % x for x in w)))
+    if nclr < 4:
+        R.anchor("clear/drain", "expected clear and drain of the split table, the map and the set, found %d" % nclr)
     return R
 
 
